@@ -14,9 +14,10 @@ from harness import common, par, refscope, sitegen
 
 def gen_case(rng):
     scenario = rng.choice(['links', 'links', 'redirect-other-host', 'redirect-rejected-path', 'redirect-above-parent',
-                           'robots-redirect-other-host', 'requisite-other-host'])
+                           'robots-redirect-other-host', 'requisite-other-host', 'start-url-redirects-above-parent'])
     opts = {'recursive': True, 'level': rng.choice([0, 2, 3]), 'page_requisites': rng.random() < 0.6,
-            'page_requisites_level': 5, 'no_parent': scenario == 'redirect-above-parent' or rng.random() < 0.2,
+            'page_requisites_level': 5,
+            'no_parent': scenario in ('redirect-above-parent', 'start-url-redirects-above-parent') or rng.random() < 0.2,
             'reject_regex': r'(forbidden|\.zip$)' if scenario == 'redirect-rejected-path' or rng.random() < 0.3 else None,
             'accept_regex': None, 'tries': 20, 'span_hosts': False,
             'span_hosts_allow': rng.choice([[], [], ['page-requisites'], ['linked-pages']]),
@@ -57,6 +58,13 @@ def build(case):
         r.status = 302
         r.location = ('/d1/above.html', 'http://a.test/d1/above.html')
         site.add(sitegen.Page('http://a.test/d1/above.html', 'leaf'))
+    elif sc == 'start-url-redirects-above-parent':
+        # the start URL itself answers with a redirect that leads out of its directory
+        start = site.add(sitegen.Page('http://a.test/d1/sub/start', 'redirect'))
+        start.status = rng.choice([301, 302, 307])
+        start.location = ('/d1/private.html', 'http://a.test/d1/private.html')
+        site.add(sitegen.Page('http://a.test/d1/private.html', 'leaf'))
+        site.start = start.url
     elif sc == 'requisite-other-host':
         img = sitegen.Page('http://b.test/pic.png', 'img')
         other.add(img)
@@ -199,6 +207,9 @@ def run_case(case, part):
     # root): a record that claims an embedding where the page merely links (or a smaller depth) defeats the rules
     for url, row in rowmap.items():
         if url == site.start:
+            # a start URL is its own root (and parent) at depth 0
+            if row['root'] != url or row['level'] != 0 or row['inline_level']:
+                part.violation('row-metadata-wrong/start-url', {'row': row}, replay)
             continue
         problems = sitegen.row_metadata_problems(url, row, rowmap, all_pages, site.start)
         if problems:
